@@ -494,6 +494,18 @@ pub fn histories(tier: &Tier) -> Result<Vec<History>, String> {
             }
         }
     }
+    // two branches on disk: the node followed M1..M3 and stored S1, S2 as a side branch; S's files
+    // sort first at every height (earlier timestamps), so the start-up loader follows S until M3
+    // arrives and then reorganises -- something the live node never did. With prune_after_blocks =
+    // 1 the loader has dropped S1's transactions from memory by then.
+    for prune in [8u64, 1] {
+        let mut tw = build_tree(g, 8, &[0, 1, 0, 3, 4], None)?;
+        tw.w.cfg.consensus.prune_after_blocks = prune;
+        let mut order: Vec<usize> = tw.stem.clone();
+        order.extend([tw.tb[2], tw.tb[0], tw.tb[3], tw.tb[1], tw.tb[4]]);
+        let label = format!("g{}-stem8-side-branch-first-in-file-order-prune{}", g, prune);
+        out.push(record(tw, order, label)?);
+    }
     Ok(out)
 }
 
